@@ -195,6 +195,15 @@ func (x *e2eBox) run(done chan struct{}) {
 				out[len(out)-1] ^= 0x01
 			case 't':
 				out = out[:len(out)-2]
+			case 'l':
+				// ONE flipped character, the length byte, to a smaller still-valid length: the receiver's checksum
+				// fails after a shortened read and the tail of the transmission is still on the line when it has to
+				// answer (after seeded change C18b-1: NAK sent without first listening until the line is quiet)
+				if out[0] >= 0x8A {
+					out[0] ^= 0x80
+				} else {
+					out[1+(len(out)-3)/2] ^= 0x04
+				}
 			}
 			x.send(!senderE, out...)
 			state = waitAck
@@ -394,7 +403,8 @@ func e2eModelLine(sc e2eScenario, obs e2eObs) string {
 		if sc.faults == "" {
 			return "-"
 		}
-		return sc.faults
+		// for the line model a shortened length byte is one more single-character corruption of the block
+		return strings.ReplaceAll(sc.faults, "l", "f")
 	}())
 	put := func(msgs []e2eMsg, sys [][4]byte) {
 		for i, m := range msgs {
@@ -502,6 +512,30 @@ func e2eScenarios(c *Ctx) []e2eScenario {
 			sc.msgsH = ms
 		}
 		out = append(out, sc)
+	}
+	// (1b) a single-block message whose payload happens to contain ENQ followed by a well-formed block addressed to the
+	//      receiver (think of a captured line trace inside a report), transmitted with its length byte flipped to a
+	//      smaller valid value: nothing but the one real message may ever be delivered
+	for _, fromE := range []bool{true, false} {
+		for _, fl := range []string{"l", "ln", "ll", "lf", "nl", "kl"} {
+			hdr := [10]byte{0x01, 0x23, 0x80 | 2, 41, 0x80, 0x01, 0x7a, 0x7b, 0x7c, byte(len(out))}
+			if fromE {
+				hdr[0] |= 0x80 // R-bit: towards the host
+			}
+			emb := secs1.VerifAppendTo(nil, secs1.VerifBlock{Header: hdr, Body: []byte{0x21, 0x01, 0x07}})
+			pl := bytes.Repeat([]byte{0x41}, 96)
+			pl = append(pl, 0x05)
+			pl = append(pl, emb...)
+			pl = append(pl, bytes.Repeat([]byte{0x41}, 200-len(pl))...)
+			sc := e2eScenario{limitE: 3, limitH: 3, faults: fl, tag: "embedded-block-length-flip"}
+			m := e2eMsg{stream: 6, fn: 11, payload: pl}
+			if fromE {
+				sc.msgsE = []e2eMsg{m}
+			} else {
+				sc.msgsH = []e2eMsg{m}
+			}
+			out = append(out, sc)
+		}
 	}
 	// (2) contention: both ends send at once; at most two faults, none of them a lost handshake character, slave limit 3
 	ck := "ftka"
